@@ -89,6 +89,9 @@ def case_strategy(draw, half):
     case["flavour"] = draw(st.sampled_from(["skiprest", "skiprest", "cut"]))
     case["via"] = draw(st.sampled_from(["save", "save", "eclipseio"]))
     case["load_via"] = draw(st.sampled_from(["load", "eclipseio"]))
+    # which Schedule the loader is given: the one restarted from the file, or one built from the full deck alone (only
+    # the dynamic state comes from the file: upstream's test_Restart, flow with restart_offset() == 0)
+    case["load_sched"] = draw(st.sampled_from(["rst", "rst", "deck"])) if case["flavour"] == "skiprest" else "rst"
     case["salt"] = draw(st.integers(0, 2 ** 32 - 1))
     case["nhist"] = draw(st.integers(0, 2))          # summary evaluations before the one at the restart step
     case["substep"] = draw(st.booleans())            # an extra evaluation in the middle of the last step
@@ -102,6 +105,20 @@ def case_strategy(draw, half):
     # an action that ran more than once; an integer solution array
     case["quirk"] = draw(st.sampled_from([None] * 12 + ["bare_wells", "fractional_time", "drvdt", "action_reruns", "int_array", "zero_limit"]))
     return case
+
+
+WELSEGS_REC = re.compile(r"^ (\d+) \d+ (\d+) (\d+) \S+ \S+ \S+ \S+ /$", re.M)
+
+
+def msw_interleaved(txt):
+    """some multisegment well numbers its segments so that WellSegments (which keeps the segments of a branch together)
+    stores them in an order other than by number: a segment of a higher branch has a smaller number than a segment of
+    a lower branch"""
+    for blk in re.findall(r"WELSEGS\n(?: .*\n)+?/\n", txt):
+        recs = [(int(a), int(b)) for a, b, _ in WELSEGS_REC.findall(blk)]
+        if any(n1 < n2 and b1 > b2 for n1, b1 in recs for n2, b2 in recs):
+            return True
+    return False
 
 
 def phase_list(case):
@@ -463,6 +480,8 @@ class C05(Check):
                   case["half"] + ":" + ("unif" if case["unif"] else "multi"), case["half"] + ":" + ("double" if case["double"] else "float"),
                   case["half"] + ":phases:" + case["phases"], case["half"] + ":flavour:" + case["flavour"],
                   case["half"] + ":via:" + case["via"]]
+        if case["half"] == "A":
+            labels.append("A:load-schedule:" + case.get("load_sched", "rst"))
         txt = "".join("".join(b["kws"]) for b in case["blocks"])
         for kw, lab in (("WELSEGS\n", "MSW"), ("UDQ\n", "UDQ"), ("ACTIONX\n", "ACTIONX"), ("WLIST\n", "WLIST"), ("NODEPROP\n", "network"),
                         ("GRUPTREE\n", "GRUPTREE"), ("WCONHIST\n", "WCONHIST"), ("GEFAC\n", "GEFAC"), ("WEFAC\n", "WEFAC")):
@@ -470,6 +489,10 @@ class C05(Check):
                 labels.append(case["half"] + ":has:" + lab)
         if case["holes"]:
             labels.append(case["half"] + ":inactive-cells")
+        if msw_interleaved(txt):
+            labels.append(case["half"] + ":msw:interleaved-numbering")
+        if re.search(r"^ \d+ \d+ [2-9] \d+ ", txt, re.M):
+            labels.append(case["half"] + ":msw:laterals")
         nontriv = ("'P" in txt and "'I" in txt) and (case["unit"] != "METRIC" or case["fmt"] or "WELSEGS\n" in txt)
         if case["half"] == "B":
             # a keyword after the restart step names a well
@@ -489,7 +512,7 @@ class C05(Check):
     def floors(self, tier):
         # vacuity guards: every flavour of the statement's quantifier must actually occur
         return {"A:unit:FIELD": 0.03, "A:unit:LAB": 0.03, "A:unit:PVT-M": 0.03, "A:fmt": 0.05, "A:unif": 0.05, "A:double": 0.05,
-                "A:has:MSW": 0.05, "A:has:UDQ": 0.02, "A:has:ACTIONX": 0.02, "A:compared:flowing-producer": 0.03,
+                "A:has:MSW": 0.05, "A:msw:interleaved-numbering": 0.03, "B:msw:interleaved-numbering": 0.03, "A:has:UDQ": 0.02, "A:has:ACTIONX": 0.02, "A:compared:flowing-producer": 0.03,
                 "A:compared:flowing-injector": 0.03, "A:compared:segments": 0.05, "B:unit:FIELD": 0.03, "B:fmt": 0.05,
                 "B:has:MSW": 0.05, "B:has:UDQ": 0.02, "B:has:ACTIONX": 0.02, "B:later-keyword-names-a-well": 0.1,
                 "B:compared:states": 0.2}
@@ -562,7 +585,7 @@ class C05(Check):
         int_keys = [s["key"] for s in sols if "idata" in s]
         load_keys = [{"key": s["key"], "measure": s["measure"], "required": True} for s in sols]
         load_extra = [{"key": e["key"], "measure": e["measure"], "required": True} for e in extras]
-        req.update(load_keys=load_keys, load_extra=load_extra, load_via=case["load_via"])
+        req.update(load_keys=load_keys, load_extra=load_extra, load_via=case["load_via"], load_sched=case.get("load_sched", "rst"))
         r = P.call("rst_roundtrip", **req)
         if "save_error" in r:
             return self.save_error(case, r["save_error"], req["text"])
@@ -1003,6 +1026,14 @@ def key_B(attr, x, y, case, state=None, path="", other=None):
         return "B:group.inj.cmode"
     if re.match(r"well\.(prod|inj)_udq\.", attr) and x == "<absent>":
         return "B:well.uda-stale-after-redefinition"
+    if attr.startswith("group") and state is not None and other is not None:
+        # a group-level UDA of one group (FIELD) restored onto another group: everything that differs in the groups
+        # that lost / received the UDQ name belongs to that finding
+        gname = path.strip("/").split("/")[1] if path.count("/") >= 2 else ""
+        tk = ("oil_target", "water_target", "gas_target", "liquid_target")
+        ga, gb = state["groups"].get(gname, {}).get("prod", {}), other["groups"].get(gname, {}).get("prod", {})
+        if any(ga.get(k) != gb.get(k) and "<numeric>" in (ga.get(k), gb.get(k)) for k in tk):
+            return "B:group.uda-lost"
     mg = re.match(r"group\.prod(Controls)?\.(oil|water|gas|liquid)_target$", attr)
     if mg and state is not None:
         gname = path.strip("/").split("/")[1]
@@ -1056,6 +1087,9 @@ def norm_state(s):
                         except ValueError:
                             pass
     for g in s["groups"].values():
+        # the group tree is compared as a relation (parent, set of children): the order of a group's child groups follows
+        # the order the GRUPTREE records came in originally and the group insert order after a restart
+        g["groups"] = sorted(g["groups"])
         p = g["prod"]
         for k in ("oil_target", "water_target", "gas_target", "liquid_target"):
             p[k] = p[k][1] if p[k][0] == "s" else "<numeric>"
@@ -1081,6 +1115,9 @@ def norm_state(s):
         # connections are compared cell by cell; their order is an attribute of its own
         w["conn_order"] = ["%d,%d,%d" % (c["I"], c["J"], c["K"]) for c in w["conn"]]
         w["conn"] = {"%d,%d,%d" % (c["I"], c["J"], c["K"]): c for c in w["conn"]}
+        # likewise the segments: compared by number; the storage order is an attribute of its own
+        w["seg_order"] = [sg["number"] for sg in w["seg"]]
+        w["seg"] = {str(sg["number"]): sg for sg in w["seg"]}
     for w in s["wells"].values():
         producer = w["producer"]
         for side in ("prod", "inj"):
